@@ -15,7 +15,7 @@ import (
 func init() {
 	register(&Property{
 		ID: "C10", Level: "fault_enumeration", Builds: []string{"plain", "checkptr"},
-		Rule:        "inputs = (a) ALL proper prefixes of valid portable streams <= 4 KiB (sampled prefixes above) which every portable decoder must reject; (b) structure-aware corruptions of valid portable streams made through an independent codec: cookie, size field (0,+-1,65536,65537,2^32-1), keys (swap, duplicate, descending), cardinality fields (+-1,0,0xFFFF, array/bitmap threshold), offsets (garbage), arrays (unsorted, duplicate), bitmaps (popcount != cardinality), runs (count 0, unsorted, overlapping, adjacent, start+length wrapping past 65535, more runs than efficient), run-flag bits; (c) the frozen analogues (header count 0..2^17, type codes 0/4/255, counts +-1, bitmap chunk with <=4096 values, array chunk >4096, run count 0, wrapping/overlapping runs, misplaced arenas, trailing bytes, truncation); (d) random bit flips and random byte strings; (e) the repository's testdata/crash*.bin. Every input is placed in guard memory twice (ending at a PROT_NONE page, and starting after one) and fed to ReadFrom, FromBuffer, FromUnsafeBytes, UnmarshalBinary, FromBase64, FrozenView, plus MustReadFrom / MustFrozenView: a panic, a memory fault or an accepted prefix is a violation. Inputs that are accepted AND pass Validate() run a consistency battery (raw containers vs ToArray vs iterators vs queries, algebra with a valid bitmap against a model rebuilt from ToArray, portable and frozen re-serialization round trip). Accepted-but-invalid inputs are only counted. Non-trivial: a corrupted or truncated input; distinct = hash of the input bytes.",
+		Rule:        "inputs = (a) ALL proper prefixes of valid portable streams <= 4 KiB (sampled prefixes above) which every portable decoder must reject; (b) structure-aware corruptions of valid portable streams made through an independent codec: cookie, size field (0,+-1,65536,65537,2^32-1), keys (swap, duplicate, descending), cardinality fields (+-1,0,0xFFFF, array/bitmap threshold), offsets (garbage), arrays (unsorted, duplicate), bitmaps (popcount != cardinality), runs (count 0, unsorted, overlapping, adjacent, start+length wrapping past 65535, more runs than efficient), run-flag bits; (c) the frozen analogues (header count 0..2^17, type codes 0/4/255, counts +-1, bitmap chunk with <=4096 values, array chunk >4096, run count 0, wrapping/overlapping runs, misplaced arenas, trailing bytes, truncation); (d) random bit flips and random byte strings; (e) the repository's testdata/crash*.bin. Every input is placed in guard memory twice (ending at a PROT_NONE page, and starting after one) and fed to ReadFrom, FromBuffer, FromUnsafeBytes, UnmarshalBinary, FromBase64, FrozenView, plus MustReadFrom / MustFrozenView: a panic, a memory fault or an accepted prefix is a violation. Inputs that are accepted AND pass Validate() run a consistency battery (raw containers vs ToArray vs iterators vs queries, algebra with a valid bitmap against a model rebuilt from ToArray, portable and frozen re-serialization round trip). Accepted-but-invalid inputs are only counted. Non-trivial: a corrupted or truncated input; distinct = hash of the input bytes. Added units: prefixes of 65536-chunk streams (both cookies); frozen images synthesized from header fields under four arena-length arithmetics; the complete valid stream / image into fresh and used receivers (a validated result must be the encoded set); receiver growth x stream size.",
 		Assumptions: []string{"using a bitmap that failed Validate() is documented user error and not judged", "hangs are judged by the parent's watchdog (bounded progress)"},
 		Units: []Unit{
 			{Name: "prefixes@plain,checkptr", Quick: 260, Thorough: 8000, Run: c10Prefixes},
